@@ -697,6 +697,72 @@ func hostile(r *ev.Run, srv *dohmem.Server) {
 		srv.Zone = z.answer
 	}
 	label := func(n int) string { return strings.Repeat("l", n) }
+	// names that only the SERVER supplies (alias and service targets, the in-answer CNAME target) and that no DNS name can be:
+	// a "label" whose length octet is 64..191 (reserved label types), a name longer than 255 octets. Whatever Resolve does with
+	// such an answer, every query it sends is a well-formed message for a legal name
+	{
+		var long []string
+		for i := 0; i < 5; i++ {
+			long = append(long, label(60))
+		}
+		hostile := map[string]string{"label-100": label(100) + ".example", "label-64": "a." + label(64), "label-191": label(191), "name-304": strings.Join(long, "."), "name-256": strings.Join(long[:4], ".") + "." + label(11)}
+		for _, hk := range sortedKeys(hostile) {
+			for _, mode := range []string{"alias", "service", "cname"} {
+				hn := hostile[hk]
+				srv.Reset()
+				srv.Zone = func(name string, t uint16) dohmem.Answer {
+					if name != "o.example" {
+						return dohmem.Answer{}
+					}
+					switch {
+					case mode == "cname":
+						return dohmem.Answer{Records: []dnsref.RR{{Name: "o.example", Type: 5, Class: 1, TTL: 60, Fields: []dnsref.Field{dnsref.N(hn)}}}}
+					case t == 65 && mode == "alias":
+						return dohmem.Answer{Records: []dnsref.RR{{Name: "o.example", Type: 65, Class: 1, TTL: 60, Fields: dnsref.SVCB(0, hn, nil)}}}
+					case t == 65:
+						return dohmem.Answer{Records: []dnsref.RR{{Name: "o.example", Type: 65, Class: 1, TTL: 60, Fields: dnsref.SVCB(1, hn, []dnsref.Param{dnsref.ParamALPN("h2")})}}}
+					case t == 1:
+						return dohmem.Answer{Records: []dnsref.RR{{Name: "o.example", Type: 1, Class: 1, TTL: 60, Fields: []dnsref.Field{{Raw: ipX4}}}}}
+					}
+					return dohmem.Answer{}
+				}
+				res, _ := ech.NewResolver("https://doh.test/dns-query")
+				var err error
+				panicked := any(nil)
+				func() {
+					defer func() { panicked = recover() }()
+					_, err = res.Resolve(context.Background(), "o.example")
+				}()
+				desc := fmt.Sprintf("%s target %s", mode, hk)
+				if panicked != nil {
+					r.Violation("panic:hostile-server-name", fmt.Sprintf("Resolve(\"o.example\") panicked on an answer with %s: %v", desc, panicked), desc)
+				}
+				for _, q := range srv.Queries() {
+					bad := ""
+					if q.Name == dohmem.Unparseable {
+						bad = "a message that is not well-formed RFC 1035"
+					} else if len(q.Name) > 253 {
+						bad = fmt.Sprintf("a query for a %d-byte name", len(q.Name))
+					}
+					for _, l := range strings.Split(q.Name, ".") {
+						if len(l) > 63 {
+							bad = fmt.Sprintf("a query with a %d-byte label", len(l))
+						}
+					}
+					if bad != "" {
+						r.Violation("malformed-query-sent:hostile-server-name:"+mode, fmt.Sprintf("Resolve(\"o.example\"), answered with %s, then sent %s", desc, bad), desc)
+						break
+					}
+				}
+				oc := "hostile server name -> result"
+				if err != nil {
+					oc = "hostile server name -> error"
+				}
+				r.Eval("hostile-server-name:"+desc, oc)
+			}
+		}
+		srv.Zone = z.answer
+	}
 	var inputs []string
 	for _, n := range []int{62, 63, 64, 65, 255, 300} {
 		inputs = append(inputs, label(n)+".example", "a."+label(n), label(n), label(n)+":8443", "https://"+label(n)+".example:8443")
@@ -763,4 +829,13 @@ func hostile(r *ev.Run, srv *dohmem.Server) {
 		}
 		r.Eval("hostile:"+in, oc)
 	}
+}
+
+func sortedKeys(m map[string]string) []string {
+	var ks []string
+	for k := range m {
+		ks = append(ks, k)
+	}
+	sort.Strings(ks)
+	return ks
 }
